@@ -308,8 +308,52 @@ class _Cap(logging.Handler):
         self.records.append(record.getMessage())
 
 
+def _scribble(g):
+    try:
+        for v in I.graph_vertices(g):
+            np.asarray(v.pose)[...] = 12345.678
+        for e in I.graph_edges(g):
+            if isinstance(e.estimate, np.ndarray):
+                np.asarray(e.estimate)[...] = -9876.5
+            if getattr(e, "offset", None) is not None:
+                np.asarray(e.offset)[...] = 777.25
+            np.asarray(e.information)[...] = -1.0
+        for prm in (I.graph_params(g) or {}).values():
+            np.asarray(prm.value)[...] = 555.5
+    except Exception:
+        pass
+
+
+def _prelude(ctx):
+    """history carried by every case: a file with every tag is loaded first and every array of that graph is overwritten in
+    place, so anything a later load shares with an earlier one (module-level default objects, cached parameters) shows up."""
+    bf = base_files()
+    path = os.path.join(ctx["tmp"], "prelude.g2o")
+    lines = [list(l) for l in bf["b1"] if l[0] != "CUSTOM_PRIOR"]
+    remap = {"10": "110", "-4": "96", "7": "107"}
+    for l in bf["b2"]:
+        l = list(l)
+        if l[0].startswith("VERTEX"):
+            l[1] = remap[l[1]]
+        elif l[0].startswith("EDGE"):
+            l[1], l[2] = remap[l[1]], remap[l[2]]
+        lines.append(l)
+    with open(path, "w", newline="") as f:
+        f.write(render(lines))
+    lg = logging.getLogger("graphslam.graph")
+    old = lg.level
+    lg.setLevel(logging.CRITICAL)
+    try:
+        g = I.Graph.from_g2o(path)
+        assert len(I.graph_vertices(g)) == 6 and len(I.graph_edges(g)) == 4
+        _scribble(g)
+    finally:
+        lg.setLevel(old)
+
+
 def _eval(case, ctx):
     msgs = []
+    _prelude(ctx)
     text, classes = text_of(case)
     has_custom = "CUSTOM_PRIOR" in text
     if has_custom:
@@ -354,21 +398,7 @@ def _eval(case, ctx):
         loads += 1
         if _bits(g0) != _bits(got):
             msgs.append("%s returns a different graph than Graph.from_g2o for the same file" % LOADERS[loader])
-    # history inside this worker process: scribble over every array of the loaded graph, so that anything a later load would
-    # share with this one (module-level default objects, cached parameters) is visibly polluted
-    try:
-        for v in I.graph_vertices(g):
-            np.asarray(v.pose)[...] = 12345.678
-        for e in I.graph_edges(g):
-            if isinstance(e.estimate, np.ndarray):
-                np.asarray(e.estimate)[...] = -9876.5
-            if getattr(e, "offset", None) is not None:
-                np.asarray(e.offset)[...] = 777.25
-            np.asarray(e.information)[...] = -1.0
-        for prm in (I.graph_params(g) or {}).values():
-            np.asarray(prm.value)[...] = 555.5
-    except Exception:
-        pass
+    _scribble(g)
     if msgs:
         msgs.append("file was:\n" + text)
     return msgs, {"classes": classes, "nobj": len(got["vertices"]) + len(got["edges"]) + len(got["params"]), "nwarn": nw, "loads": loads}
